@@ -27,6 +27,25 @@ META = {
                 "the failure path: recover_ext3_journal resets the journal even when recovery failed (upstream behaviour: a full check follows)"],
 }
 
+_p17 = os.path.join(os.path.dirname(os.path.abspath(__file__)), "..", "C17", "spec.py")
+_s17 = importlib.util.spec_from_file_location("spec_C17_for_C04", _p17)
+_m17 = importlib.util.module_from_spec(_s17)
+_s17.loader.exec_module(_m17)
+
+def _flush():
+    """sync_blockdev -> io_channel_flush -> unix_flush: the C17 cache FLUSH step (from an arbitrary cache state the
+    device holds the model AND an fsync is issued, even when this flush has nothing left to write)"""
+    for h in _m17.HARNESSES:
+        if h["name"] == "cache":
+            d = dict(h)
+            d["name"] = "flush_durable"
+            d["src"] = "../C17/cache.c"
+            d["configs"] = [c for c in h["configs"] if c.get("OP") == _m17.OPS["FLUSH"] and "FAULT" not in c
+                            and "E2FSPROGS_VERIF_CACHE_SIZE" not in c]
+            d["funcs"] = ["unix_flush", "flush_cached_blocks"]
+            return d
+    raise RuntimeError("C17 cache harness missing")
+
 def _order():
     for h in _m.HARNESSES:
         if h["name"] == "order":
@@ -37,6 +56,10 @@ def _order():
 
 HARNESSES = [
     _order(),
+    _flush(),
+    dict(name="syncdev", src="syncdev.c", funcs=["sync_blockdev", "getblk", "ll_rw_block"],
+         unwind=4, backends=["default"],
+         bound="internal and external journal, both devices, any block number, flush outcome symbolic"),
     dict(name="protocol", src="protocol.c",
          cut_statics={"e2fsck/journal.c": ["e2fsck_get_journal", "e2fsck_journal_load"]},
          funcs=["recover_ext3_journal", "e2fsck_journal_release", "brelse", "ll_rw_block"],
